@@ -12,7 +12,7 @@
 (*   quoted] [k |-> "res"] ("?") [k |-> "dup", n |-> count, args |-> ...] (Intel DUP), and rep |-> n on an         *)
 (*   argument for the Motorola repeat prefix [n].                                                                *)
 (* Modes md: [big |-> target byte order for this statement, padding |-> PADDING ON, pcodd |-> statement starts   *)
-(*   at an odd address, cs |-> name of the active CHARSET map, lg |-> list granularity of the assembling target  *)
+(*   at an odd address, cs |-> the CHARSET statements in force, lg |-> list granularity of the assembling target   *)
 (*   (only consulted by Devs: the documented layout does not depend on it)].                                     *)
 EXTENDS Naturals, Integers, Sequences, FiniteSets, Limb64, IEEE
 
@@ -44,13 +44,39 @@ StmtTable ==
    TIWORD |-> [fam |-> "ti", w |-> 2,  ty |-> "int",  fmt |-> "none",   order |-> "little", pads |-> FALSE],
    TILONG |-> [fam |-> "ti", w |-> 4,  ty |-> "int",  fmt |-> "none",   order |-> "little", pads |-> FALSE]]
 
-(* ---- character maps ----------------------------------------------------------------------------------------- *)
-\* "id": initial 1:1 table; "up": CHARSET 'a','z','A'; "hi": CHARSET 'a',200 (a target code above 127)
-MapChar(name, c) ==
-  CASE name = "up" -> IF c \in 97..122 THEN c - 32 ELSE c
-    [] name = "hi" -> IF c = 97 THEN 200 ELSE c
-    [] OTHER -> c
-MapStr(name, cs) == [i \in 1..Len(cs) |-> MapChar(name, cs[i])]
+(* ---- character maps ------------------------------------------------------------------------------------------ *)
+(* The CHARSET table is a function value 0..255 -> 0..255, part of the state of the assembly.  It starts as the   *)
+(* identity and is changed by CHARSET statements, each of which *assigns* entries indexed by the source           *)
+(* character (nothing is composed with what the table held before):                                              *)
+(*   [k |-> "range", a, b, c]   CHARSET a,b,c : entries a..b := c, c+1, ...                                        *)
+(*   [k |-> "one", a, c]        CHARSET a,c   : entry a := c                                                       *)
+(*   [k |-> "str", a, cs]       CHARSET a,"..": entries a, a+1, ... := the characters                              *)
+(*   [k |-> "reset"]            CHARSET       : back to the identity                                               *)
+(* md.cs is the sequence of CHARSET statements in force when the data statement is assembled.  A string argument  *)
+(* lays down, per character, Table[character] - the table applied exactly once - and a repeat count ([n], DUP)    *)
+(* replicates those bytes.                                                                                        *)
+IdTable == [c \in 0..255 |-> c]
+ApplyOp(tab, op) ==
+  CASE op.k = "range" -> [x \in 0..255 |-> IF x >= op.a /\ x <= op.b THEN (op.c + (x - op.a)) % 256 ELSE tab[x]]
+    [] op.k = "one"   -> [tab EXCEPT ![op.a] = op.c]
+    [] op.k = "str"   -> [x \in 0..255 |-> IF x >= op.a /\ x < op.a + Len(op.cs) THEN op.cs[x - op.a + 1] ELSE tab[x]]
+    [] OTHER          -> IdTable
+RECURSIVE TableAfter(_, _)
+TableAfter(tab, ops) == IF ops = <<>> THEN tab ELSE TableAfter(ApplyOp(tab, Head(ops)), Tail(ops))
+Table(ops) == TableAfter(IdTable, ops)
+
+\* the same entry found without building the table: the last statement that assigns it, not looking past a reset
+RECURSIVE MapChar(_, _)
+MapChar(ops, c) ==
+  IF ops = <<>> THEN c
+  ELSE LET op == ops[Len(ops)]
+           before == SubSeq(ops, 1, Len(ops) - 1)
+       IN CASE op.k = "reset" -> c
+            [] op.k = "range" /\ c >= op.a /\ c <= op.b -> (op.c + (c - op.a)) % 256
+            [] op.k = "one" /\ c = op.a -> op.c
+            [] op.k = "str" /\ c >= op.a /\ c < op.a + Len(op.cs) -> op.cs[c - op.a + 1]
+            [] OTHER -> MapChar(before, c)
+MapStr(ops, cs) == [i \in 1..Len(cs) |-> MapChar(ops, cs[i])]
 
 (* ---- integers ----------------------------------------------------------------------------------------------- *)
 \* "-2^(8w-1) .. 2^(8w)-1": a field accepts the signed and the unsigned reading (IntTypeDefs Int8/Int16/Int32)
@@ -174,6 +200,14 @@ Layout(sname, args, md) ==
      ELSE IF body.k = "uns" THEN [k |-> "unspec"]
      ELSE IF body.k = "b" THEN (IF Len(body.b) > 1024 THEN [k |-> "unspec"] ELSE [k |-> "data", pad |-> pad, b |-> body.b])
      ELSE [k |-> "reserve", pad |-> pad, n |-> body.n]
+
+\* the same statement twice with CHARSET statements cs2 between the two: the second copy sees the changed table
+LayoutTwice(sname, args, md, cs2) ==
+  LET l1 == Layout(sname, args, md)
+      l2 == Layout(sname, args, [md EXCEPT !.cs = md.cs \o cs2, !.pcodd = FALSE])
+  IN IF l1.k = "data" /\ l2.k = "data" /\ l1.pad = 0 /\ l2.pad = 0 /\ (Len(l1.b) % 2 = 0 \/ ~StmtTable[sname].pads)
+     THEN [k |-> "data", pad |-> 0, b |-> l1.b \o l2.b]
+     ELSE [k |-> "unspec"]
 
 (* ---- named deviations of the pinned implementation -------------------------------------------------------------*)
 RECURSIVE FlatArgs(_)
